@@ -98,6 +98,8 @@ OPNAMES = list(OPS)
 KINDS = ['PullInstancesWithPath', 'PullInstancePaths', 'PullInstances']
 KIND_REPRESENTATIVES = ['OpenEnumerateInstances', 'OpenAssociatorInstancePaths', 'OpenQueryInstances']
 BOGUS = ['no-such-context', '']
+MAX_STATES_PER_BFS = 50000        # safety net for broken implementations (largest graph on the
+                                  # unchanged tree: about 3 000 states); hitting it is reported as a cap
 SAMPLE_PLAN = ['OpenEnumerateInstances', 'OpenAssociatorInstancePaths']
 QUERY = 'SELECT * FROM TST_A'
 QLANG = 'DMTF:FQL'
@@ -658,7 +660,8 @@ def run_shard(shard, tier):
                                                                  'stale:refused') else None)
 
         res = explore.bfs(w, enabled, step, canon, max_depth=depth,
-                          snap=explore.PickleSnap(), on_transition=on_transition)
+                          snap=explore.PickleSnap(), on_transition=on_transition,
+                          max_states=MAX_STATES_PER_BFS)
         for v in res.violations.values():
             acc.violation(v['sig'], dict(check=v['sig']['check'], n=n, history=v['history']),
                           v['expected'], v['observed'])
